@@ -4,7 +4,9 @@ pair, transcribed case by case from the C code as it is after the `fix:` commits
 C casts are explicit (`wrap32` = `(int)x`), the order of the type tests follows the C `switch`es.
 
 Behaviour that still deviates from the reference semantics (open known findings, known/C03.jsonl) is guarded by
-a flag of `Quirks`; `Quirks.real` (all flags on) is the code that exists.  Switching ONE flag off gives the code
+a flag of `Quirks`; `Quirks.real` is the code that exists.  Flags whose default is `false` are deviations that
+have been repaired in the repository (round 2 fix commits, notes/C03.md); their code paths are kept so that a
+revert of the fix is still explained.  Switching ONE flag off gives the code
 with that single deviation repaired — the judge uses this to attribute a disagreement to exactly one finding.
 -/
 import NV.C03.Spec
@@ -19,11 +21,11 @@ structure Quirks where
   addEqNumStr : Bool := true
   /-- f_range on strings: with OLD_RANGE_BEHAVIOR a `<` bound that lands before the start is clamped, not
       counted from the end (`else if`), unlike f_extract_range, buffers and the documentation -/
-  strRangeRevNeg : Bool := true
+  strRangeRevNeg : Bool := false
   /-- a zero byte cannot be stored through a buffer element lvalue (shares the char-lvalue code of strings) -/
   bufStoreZero : Bool := true
   /-- grammar.y folds `0 + X` / `X + 0` to `X` for real-typed X: the sign of a zero differs (-0.0 vs 0.0) -/
-  foldAddZeroReal : Bool := true
+  foldAddZeroReal : Bool := false
   /-- the `x == 0 -> !x`, `if (x != 0) -> if (x)` and `0 + X -> X` rewrites trust the grammar's optimistic static
       type (`mixed + int` is typed `int`, `mixed + real` `real`) although the value may be of another type -/
   optimisticTypes : Bool := true
@@ -32,12 +34,12 @@ structure Quirks where
   revRangeWrap : Bool := true
   /-- `#if` expressions are evaluated in 32-bit `int` (lib/lpc/preprocess.c cond_get_exp) although LPC integers
       have 64 bits -/
-  ppIf32 : Bool := true
+  ppIf32 : Bool := false
   /-- grammar.y turns `x[i..<k]` with a constant k <= 1 into `x[i..]`, also when it is an lvalue, where it then
       means `x[i..<1]`: `x[i..<0] = v` is accepted with the constant and an error with a variable 0 -/
-  lvRangeConstRev : Bool := true
+  lvRangeConstRev : Bool := false
   /-- grammar.y rewrites `0 - X` to `-X`: for X = 0.0 the result is -0.0, the computed difference is +0.0 -/
-  zeroMinusNeg : Bool := true
+  zeroMinusNeg : Bool := false
   deriving Repr, DecidableEq
 
 def Quirks.real : Quirks := {}
@@ -102,13 +104,14 @@ def sub (F : FloatOps R) (a b : Value R) : Res (Value R) :=
   | .arr x, .arr y => .ok (.arr (x.filter (fun e => !(y.any (fun z => sameVal F e z)))))
   | _, _ => .err
 
-/-- F_MULTIPLY (mapping composition is outside the covered core) -/
+/-- F_MULTIPLY -/
 def mul (F : FloatOps R) (a b : Value R) : Res (Value R) :=
   match a, b with
   | .int x, .int y => .ok (.int (wrap (x * y)))
   | .real x, .real y => .ok (.real (F.mul x y))
   | .int x, .real y => .ok (.real (F.mul (F.ofInt x) y))
   | .real x, .int y => .ok (.real (F.mul x (F.ofInt y)))
+  | .map x, .map y => .ok (.map (mapCompose (keyEq F) x y))       -- compose_mapping
   | _, _ => .err
 
 /-- 64-bit signed division as repaired: divisor -1 gives the wrapped negation (idiv would trap) -/
@@ -486,34 +489,36 @@ def log2floor : Nat → Nat → Nat
   | 0, _ => 0
   | fuel + 1, n => if n ≤ 1 then 0 else 1 + log2floor fuel (n / 2)
 
+/-- `l += d; while (l >= end_tab) { d >>= 1; if (d < SWITCH_CASE_SIZE) { d = 0; break; } l -= d; }` in units of
+    table entries (`n` = number of entries) -/
+def fixup (n : Nat) : Nat → Nat → Nat → Nat × Nat
+  | 0, l, d => (l, d)
+  | f + 1, l, d => if l ≥ n then (if d / 2 = 0 then (l, 0) else fixup n f (l - d / 2) (d / 2)) else (l, d)
+
+/-- key / address field of table entry `k` -/
+def tkey (t : List (Int × Nat)) (k : Nat) : Int := (t.getD k (0, 0)).1
+def taddr (t : List (Int × Nat)) (k : Nat) : Nat := (t.getD k (0, 0)).2
+
 /-- the binary search of f_switch in units of table entries (`d` = 0 stands for `d < SWITCH_CASE_SIZE`);
-    result: target address or `none` = default -/
+    result: target address or `none` = default.  `l - d` is a C pointer subtraction: it never goes below the
+    table start because `l + 1` is a multiple of `2 d` (not modelled as a crash; see notes) -/
 def bsearch (t : List (Int × Nat)) (s : Int) : Nat → Nat → Nat → Option Nat
   | 0, _, _ => none
   | fuel + 1, l, d =>
-    let n := t.length
-    let key := fun (k : Nat) => (t.getD k (0, 0)).1
-    let addr := fun (k : Nat) => (t.getD k (0, 0)).2
-    let r := key l
-    if s < r then
-      if d == 0 then
+    if s < tkey t l then
+      if d = 0 then
         -- entry before l is the lower bound of a range ending at l?
-        if l ≥ 1 ∧ addr (l - 1) ≤ 1 ∧ s ≥ key (l - 1) then some (addr l) else none
+        if l ≥ 1 ∧ taddr t (l - 1) ≤ 1 ∧ s ≥ tkey t (l - 1) then some (taddr t l) else none
       else bsearch t s fuel (l - d) (d / 2)
-    else if s > r then
-      if d == 0 then
-        if addr l ≤ 1 ∧ l + 1 < n ∧ s ≤ key (l + 1) then some (addr (l + 1)) else none
+    else if s > tkey t l then
+      if d = 0 then
+        if taddr t l ≤ 1 ∧ l + 1 < t.length ∧ s ≤ tkey t (l + 1) then some (taddr t (l + 1)) else none
       else
-        -- l += d; while (l >= end_tab) { d >>= 1; if (d < SIZE) { d = 0; break; } l -= d; }
-        let rec fix (fuel2 : Nat) (l d : Nat) : Nat × Nat :=
-          match fuel2 with
-          | 0 => (l, d)
-          | f + 1 => if l ≥ n then (if d / 2 == 0 then (l, 0) else fix f (l - d / 2) (d / 2)) else (l, d)
-        let (l', d') := fix 64 (l + d) d
-        if l' == n then none else bsearch t s fuel l' (d' / 2)
+        if (fixup t.length (d + 1) (l + d) d).1 = t.length then none
+        else bsearch t s fuel (fixup t.length (d + 1) (l + d) d).1 ((fixup t.length (d + 1) (l + d) d).2 / 2)
     else
       -- found the key; it may be the lower bound of a range
-      if addr l ≤ 1 then some (addr (l + 1)) else some (addr l)
+      if taddr t l ≤ 1 then some (taddr t (l + 1)) else some (taddr t l)
 
 /-- f_switch on an integer table -/
 def switchLookup (tab : SwTable) (s : Int) : Option Nat :=
